@@ -1008,6 +1008,11 @@ class VMDKInspector(FileInspector):
             LOG.warning('Unsupported VMDK format %r', self.vmdktype)
             return 0
 
+        if not self.has_region('header'):
+            # A text-only descriptor has no sparse header to take the
+            # capacity from, so the size is unknown.
+            return 0
+
         # If we have the descriptor, we definitely have the header
         _sig, _ver, _flags, sectors, _grain, _desc_sec, _desc_num = (
             struct.unpack('<IIIQQQQ', self.region('header').data[:44]))
